@@ -202,6 +202,15 @@ def judge(ctx, doc, text, clean, collapse, literals):
 
 def run(ctx, params):
     rng = ctx.rng
+    # the usual workflow normalises a document before importing it: whatever that call does to the process must not change
+    # how later documents are imported
+    try:
+        from metapype.model.normalize import normalize
+        normalize("<a> <b>x</b>  <c/> </a>", is_xml=True)
+        normalize(" a  b ")
+        ctx.count("normalize_called_before_imports")
+    except Exception:
+        pass
     for i in range(params["docs"]):
         names = xmlgen.EML_NAMES if rng.random() < 0.5 else None
         doc = xmlgen.random_doc(rng, rng.choice([1, 2, 4, 8, 16, 40]), names=names)
